@@ -344,6 +344,10 @@ class FullFrontend(ConstrainedFrontend):
         solver = self._get_solver()
         self._solver_backend.satisfiable(extra_constraints=extra_constraints, solver=solver)
         unsat_core = self._solver_backend.unsat_core(solver)
+        if len(unsat_core) == 0:
+            # the backend could not name a core (Z3 reports none for an inherited assertion whose body is false):
+            # fall back to a correct, if not minimal, answer
+            unsat_core = [c for c in self.constraints if c is claripy.false()] or list(self.constraints)
 
         return tuple(unsat_core)
 
